@@ -444,7 +444,7 @@ func (encryptor *QueryDataEncryptor) OnBind(ctx context.Context, parseResult *pg
 	return newValues, changed, nil
 }
 
-func (encryptor *QueryDataEncryptor) getInsertPlaceholders(ctx context.Context, insert *pg_query.InsertStmt) (map[int]string, error) {
+func (encryptor *QueryDataEncryptor) getInsertPlaceholders(ctx context.Context, insert *pg_query.InsertStmt, boundValuesCount int) (map[int]string, error) {
 	tableName := insert.GetRelation().GetRelname()
 	logger := logging.GetLoggerFromContext(ctx)
 	// Look for the schema of the table where the INSERT happens.
@@ -486,11 +486,13 @@ func (encryptor *QueryDataEncryptor) getInsertPlaceholders(ctx context.Context, 
 	// as inserted values. We don't support functions, casts, inserting query results, etc.
 	//
 	// Walk through the query to find out which placeholders stand for which columns.
-	// Also count amount of passed value to validate that placeholder's index doesn't go out of this number
-	valuesCount := 0
+	// A placeholder number is valid when a parameter with this number is bound, like in encryptUpdateValues.
+	// It must not be compared with the amount of VALUES items seen so far: placeholders may be numbered in
+	// any order and the Bind may carry more parameters than the VALUES list has items
+	// (`VALUES ($1, $3), ($2, $4)`, `VALUES (1, $2)`): such a statement failed with ErrInvalidPlaceholder
+	// and its Bind packet was forwarded with plaintext parameters.
 	for _, list := range insert.SelectStmt.GetSelectStmt().GetValuesLists() {
 		values := list.GetList().GetItems()
-		valuesCount += len(values)
 		for i, value := range values {
 			if i >= len(columns) {
 				logger.WithFields(logrus.Fields{"value_index": i, "column_count": len(columns)}).Warningln("Amount of values in INSERT bigger than column count")
@@ -502,7 +504,7 @@ func (encryptor *QueryDataEncryptor) getInsertPlaceholders(ctx context.Context, 
 			if value.GetParamRef() == nil {
 				continue
 			}
-			err := encryptor.updatePlaceholderMap(valuesCount, placeholders, int(value.GetParamRef().GetNumber()), columns[i])
+			err := encryptor.updatePlaceholderMap(boundValuesCount, placeholders, int(value.GetParamRef().GetNumber()), columns[i])
 			if err != nil {
 				return nil, err
 			}
@@ -542,7 +544,7 @@ func (encryptor *QueryDataEncryptor) encryptInsertValues(ctx context.Context, in
 		logrus.WithField("table", tableName).Debugln("No encryption schema")
 		return values, false, nil
 	}
-	placeholders, err := encryptor.getInsertPlaceholders(ctx, insert)
+	placeholders, err := encryptor.getInsertPlaceholders(ctx, insert, len(values))
 	if err != nil {
 		logger.WithError(err).Errorln("Can't extract placeholders from INSERT query")
 		return values, false, err
